@@ -1170,7 +1170,10 @@ def custom_lines(chk, quick):
             # objects that reach a constructor with a registered toplevel extension given as an *instance* of its class (explicitly, or because the library derived them from
             # another object): nothing custom about them -- the flag and the strict re-parse must agree
             import copy as _copy
-            base_tl = stix2.v21.Identity(name="n", rank=1, extensions={A: dict(tl)})
+            try:
+                base_tl = stix2.v21.Identity(name="n", rank=1, extensions={A: dict(tl)})
+            except Exception:  # noqa  (refusing this valid object is C03's business; the derived objects below then report their own refusal)
+                base_tl = None
             for place, build in (("extension_instance_given", lambda: stix2.v21.Identity(name="n", rank=2, extensions={A: _CUSTOM["a"]()}, allow_custom=True)),
                                  ("new_version_of_object_with_toplevel_extension", lambda: stix2.versioning.new_version(base_tl, name="m", allow_custom=True)),
                                  ("deepcopy_of_object_with_toplevel_extension", lambda: _copy.deepcopy(base_tl)),
